@@ -165,6 +165,17 @@ CLAIMED = {
             'for realistic barcode lengths (8-16 nt) are only covered by the bounded scenarios; barcode file parsing (column order '
             'detection) is not under contract.',
             '5/C03, appendix B.3'),
+    'C13': ('Unbounded: pick_best_base_call over any number of (base, quality) calls reports a base only if its quality is strictly '
+            'better than that of every call of a different base (loop invariant), and for the two-mate arity used by '
+            'Fragment.get_consensus (either mate possibly missing) the complete rule: higher-quality mate, equal quality and '
+            'different bases -> N; get_consensus_dictionaries restricts both mates to the mate-overlap-safe window. Bounded '
+            'stand-ins (not counted as proved): the real Molecule.get_consensus with its numpy tail on 2-3 fragments x 1-2 '
+            'positions with symbolic calls over ACGTN/no call: a position is reported iff one base is called by strictly more '
+            'fragments than every other base, N never counted, also for a permuted and a duplicated fragment list.',
+            'numpy zeros/vstack/argmax/boolean masks modelled per the NumPy reference for small arrays; pysam get_aligned_pairs '
+            '(CIGAR/MD decoding) inside read_to_consensus_dict is assumed; order-independence and duplication-invariance for '
+            'arbitrary molecule sizes rest on the specification being a function of per-base counts (bounded check only).',
+            '5/C13'),
 }
 
 NOT_YET = 'check not built yet (framework under construction; see DESIGN.md section 5)'
